@@ -169,9 +169,11 @@ pub fn native_alphabet(n: Native, full: bool) -> Vec<Value> {
         }
         Native::Decimal => {
             let d = |scale: i32, u: &[u8]| V::Decimal { scale, unscaled: u.to_vec() };
-            let mut v = vec![d(0, &[1]), d(-1, &[0xff]), d(i32::MAX, &[0x00, 0x80]), d(i32::MIN, &[0])];
+            // incl. the minimal-length shape: a scale followed by ZERO digit bytes (4 bytes on the wire; `CqlDecimal` built from an
+            // empty digit vector is sent as is)
+            let mut v = vec![d(0, &[1]), d(7, &[]), d(-1, &[0xff]), d(i32::MAX, &[0x00, 0x80]), d(i32::MIN, &[0])];
             if full {
-                v.extend([d(1, &[0x7f]), d(2, &[0x00, 0x01]), d(-7, &[0xff, 0x7f]), d(0x01020304, &[9, 8, 7, 6, 5, 4, 3, 2, 1, 0, 1, 2, 3, 4, 5, 6, 7])]);
+                v.extend([d(0, &[]), d(-3, &[]), d(1, &[0x7f]), d(2, &[0x00, 0x01]), d(-7, &[0xff, 0x7f]), d(0x01020304, &[9, 8, 7, 6, 5, 4, 3, 2, 1, 0, 1, 2, 3, 4, 5, 6, 7])]);
             }
             v
         }
